@@ -6,10 +6,30 @@ import lazy
 import idx
 import mpt
 import sib
+import dim
+import pair
+import lin
+import tab
+import fsm2
+import esc
+import attr
 
 
 def _c11_fsm(ctx):
     fsm.rule_gkf(ctx)
+    fsm2.rule_gkf_escape(ctx)
+    fsm2.rule_xsd_gkf(ctx)
+    fsm2.rule_dataparser(ctx)
+    fsm2.rule_lnar(ctx)
+
+
+def _c11_rest(ctx):
+    attr.rule_numconv(ctx)
+    attr.rule_main_funnel(ctx)
+    lin.rule_wrap_w2(ctx)
+    lin.rule_bnd(ctx)
+    pair.rule_newdelete(ctx)
+    sib.rule_finish_siblings(ctx)
 
 
 def _c04(ctx):
@@ -17,6 +37,7 @@ def _c04(ctx):
     lazy.rule_lazy_adj(ctx)
     lazy.rule_lazy_cascade(ctx)
     lazy.rule_lazy_chain(ctx)
+    pair.rule_shadow(ctx)
 
 
 PROPS = {
@@ -31,7 +52,8 @@ PROPS = {
                        "are not decided.",
     },
     "C02": {
-        "rules": [sib.rule_solver_siblings, sib.rule_badreg_signalled, sib.rule_error_counters_consumed, lazy.rule_lazy_solvers],
+        "rules": [sib.rule_solver_siblings, sib.rule_badreg_signalled, sib.rule_error_counters_consumed, lazy.rule_lazy_solvers,
+                  tab.rule_algorithms, tab.rule_who_depends],
         "explanation": "R-SIB: the four AdjBase implementations implement every pure virtual of the interface; R-ERR: each solver's "
                        "solve path reaches a throw of Exception::BadRegularization and the ICGS error counter is consumed; R-LAZY L1/L2 "
                        "for every query of every solver (same typestate obligations for the four siblings). Numerical agreement of the "
@@ -51,7 +73,7 @@ PROPS = {
                        "covariance blocks precede every solver reset. Numerical equivalence with the whitened problem is not decided.",
     },
     "C14": {
-        "rules": [sib.rule_removed_pairing, sib.rule_obs_partition, mpt.rule_mpt_c14],
+        "rules": [sib.rule_removed_pairing, sib.rule_obs_partition, mpt.rule_mpt_c14, tab.rule_rm_points, tab.rule_cluster_casts],
         "explanation": "R-PAIR P1: every set_unused_xy/z in LocalNetwork is post-dominated by removed(id, code) with a reason code of the "
                        "same axis class; partition: revision_observations puts every observation on exactly one of the used / removed "
                        "lists, cleared first, and counts the used list; R-MPT: remove_huge_abs_terms re-triggers the revision after "
@@ -70,6 +92,58 @@ PROPS = {
                        "LocalNetwork::null_space() handles exactly Exception::BadRegularization, rethrows everything else, and removes "
                        "the flagged unknown's point with a reason. That the flagged set has a full-rank complement is not decided.",
     },
+    "C05": {
+        "rules": [lin.rule_bnd, lin.rule_lin, lin.rule_wrap_w1, lin.rule_unit, lin.rule_vis_local],
+        "explanation": "Shape clauses of the linearisation decided on the AST/CFG of LocalLinearization and its sibling visitors: "
+                       "R-BND bounded, paired coeff[]/index[] writes and max_size == array bound == reservation factor; R-LIN the "
+                       "coefficients of every two/three-point observation type, normalised to formal sums of signed atoms, sum to zero "
+                       "per axis (translation invariance); R-WRAP W1 angular right-hand sides that are differences of directions are "
+                       "reduced to the half circle; R-UNIT the mm/cc scale constants of rhs, coefficients and of the sibling visitors "
+                       "that combine residuals with observed values agree; R-VIS every local visitor derives from AllObservationsVisitor "
+                       "and LocalLinearization handles every observation class. That each coefficient equals the partial derivative is not decided.",
+    },
+    "C07": {
+        "rules": [esc.rule_ysign, mpt.rule_mpt_c07],
+        "explanation": "The mirroring clause only. R-YSIGN: in every writer scope a y-carrying value (LocalPoint::y/y_0, value() of Y/Ydiff, "
+                       "solution elements indexed by index_y()) reaches an output sink only after multiplication by the y sign, and sibling "
+                       "visit(Y*)/visit(Ydiff*) agree; R-MPT: remove_inconsistency() dominates the approximate-coordinate computation in main. "
+                       "The other equivalences (translation, rotation of the circle, permutation, renaming, units) relate different runs and are not decided.",
+    },
+    "C12": {
+        "rules": [esc.rule_esc_adjxml, esc.rule_str2xml, fsm2.rule_xsd_adjxml, esc.rule_ysign, lin.rule_unit],
+        "explanation": "R-ESC: three-valued taint analysis (clean / sanitised / tainted, field-based, function summaries) - no PointID, "
+                       "description, extern value or exception message reaches a markup sink of LocalNetworkXML, its observation visitor, "
+                       "XMLerror, the HTML and SVG writers unsanitised; the sanitiser str2xml maps < > & \" ' to the right entities; the "
+                       "element vocabulary of writer, reader (LocalNetworkAdjustmentResults::Parser::tag) and gama-local-adjustment.xsd "
+                       "agree; R-YSIGN and R-UNIT for the writer. Numeric round trip and cross-format equality are not decided.",
+    },
+    "C13": {
+        "rules": [attr.rule_attr_flow, attr.rule_attr_export, esc.rule_esc_export, esc.rule_ysign, tab.rule_cluster_casts],
+        "explanation": "R-ATTR: per GKFparser handler the accepted attribute names are extracted; every parsed attribute value reaches "
+                       "the model (A2); attributes written by export_xml are accepted by the corresponding handler and the schema, and every "
+                       "stored attribute is written back (A4). R-ESC for export_xml/DisplayObservationVisitor, R-YSIGN, and export covers all "
+                       "cluster kinds. That re-adjustment of the exported file needs no iteration is not decided.",
+    },
+    "C15": {
+        "rules": [dim.rule_dim, pair.rule_memrep],
+        "explanation": "R-DIM: in every lib/matvec function touching elements of two or more operands a dimension comparison whose failing "
+                       "branch throws Exception::BadRank (or a resize / a checking callee) dominates the first element access; R-PAIR P3: "
+                       "MemRep's owning pointer comes only from new[], null or a moved-from rvalue, copies allocate and copy exactly the "
+                       "source size and never alias. Algebraic identities are not decided.",
+    },
+    "C18": {
+        "rules": [tab.rule_ellipsoids],
+        "explanation": "R-TAB T3: the ellipsoid enumerators, caption and id arrays, the strcmp chain of ellipsoid(name), the switch of "
+                       "set(Ellipsoid*, id) and xml/ellipsoids.xml agree entry by entry. Round trips are numerical and not decided.",
+    },
+    "C19": {
+        "rules": [tab.rule_g3_visitors, lazy.rule_lazy_chain, lazy.rule_lazy_adj, tab.rule_algorithms, fsm2.rule_dataparser,
+                  esc.rule_esc_g3, pair.rule_newdelete],
+        "explanation": "R-VIS V2 every g3 visitor covers all concrete g3 observation classes; R-LAZY stage chain of g3::Model and "
+                       "typestate of Adj; R-TAB T1 algorithm names; R-FSM DataParser automaton (no silent error, absorbing error state, "
+                       "depth discipline, init() role table verified against its body); R-ESC g3 writers; R-PAIR P2. Adjusted "
+                       "coordinates are not decided.",
+    },
     "C04": {
         "rules": [_c04],
         "explanation": "R-LAZY: abstract interpretation of the lazy-evaluation flags (sets of complete flag valuations, "
@@ -84,12 +158,17 @@ PROPS = {
                        "themselves is not decided - only that no query can observe a stale or not-yet-computed field.",
     },
     "C11": {
-        "rules": [_c11_fsm],
+        "rules": [_c11_fsm, _c11_rest],
         "explanation": "Structural necessary conditions of 'any input is adjusted or refused with a located "
                        "diagnostic, safely', decided on facts exported from the current sources (clang AST+CFG): "
                        "R-FSM rebuilds the parser automata by value-partitioned constant propagation of the state "
                        "field and checks that no reachable (state,tag)/(state,end) transition enters the error state "
                        "without the error function that records message and line, that the error state is absorbing, "
-                       "and that every state has one nesting depth. The clauses, not the run-time behaviour, are decided.",
+                       "and that every state has one nesting depth (GKFparser, DataParser of gama-g3, the adjustment-results reader); an error "
+                       "recorded by error() cannot be overwritten (error escape); every schema child/attribute of gama-local.xsd is accepted; "
+                       "R-NUM: numeric conversions are guarded and float->int casts range-checked; R-FUNNEL: every catch clause of the mains ends in "
+                       "a non-zero return; R-WRAP W2: no subtraction wrap loop on input-facing angles; R-BND: coeff[]/index[] writes bounded; "
+                       "R-PAIR P2: new[]/delete[] pairing and no dangling owner after delete; R-SIB: covariance acceptance checks. "
+                       "The clauses, not the run-time behaviour, are decided.",
     },
 }
